@@ -247,7 +247,7 @@ def cases(seed):
     # --- MR.Q
     def b_mrq(s):
         pwe, pwt = zoo.encoder_policy(D, A, s), zoo.encoder_policy(D, A, s + 11)
-        q, qt = zoo.double_q(1, 1, (2,), s, ln=True), zoo.double_q(1, 1, (2,), s + 5, ln=True)
+        q, qt = zoo.mrq_q(s), zoo.mrq_q(s + 5)
         return (q, sgd(q), pwe.policy, sgd(pwe.policy), qt, pwe.encoder, pwt.encoder), ["q", "q_optimizer", "policy", "policy_optimizer", "q_target", "encoder", "encoder_target"]
 
     def d_mrq(r):
@@ -258,7 +258,7 @@ def cases(seed):
                     {0, 1, 2, 3}))
 
     def b_enc(s):
-        enc, enct = zoo.encoder_policy(D, A, s, n_bins=3, zs=2).encoder, zoo.encoder_policy(D, A, s + 11, n_bins=3, zs=2).encoder
+        enc, enct = zoo.encoder_policy(D, A, s, n_bins=3, zs=zoo.W).encoder, zoo.encoder_policy(D, A, s + 11, n_bins=3, zs=zoo.W).encoder
         return (enc, sgd(enc), enct), ["encoder", "encoder_optimizer", "encoder_target"]
 
     def d_enc(r):
